@@ -61,19 +61,21 @@ func (t *websocketTransport) Send(ctx context.Context, e envelope) error {
 		return err
 	}
 
+	// Use a local reference, since the transport can be closed while sending
+	conn := t.conn
 	errChan := make(chan error)
 	go func() {
-		errChan <- t.conn.WriteJSON(e)
+		errChan <- conn.WriteJSON(e)
 	}()
 
 	select {
 	case <-ctx.Done():
 		// Effectively fails all pending write operations before returning.
 		// Note that this makes the encoder to be in a permanent error state.
-		_ = t.conn.SetWriteDeadline(time.Now())
+		_ = conn.SetWriteDeadline(time.Now())
 		// The websocket connection only applies its write deadline before the
 		// next write, so also interrupt a write that is already blocked.
-		_ = t.conn.UnderlyingConn().SetWriteDeadline(time.Now())
+		_ = conn.UnderlyingConn().SetWriteDeadline(time.Now())
 		<-errChan
 		return fmt.Errorf("ws transport: send: %w", ctx.Err())
 	case err := <-errChan:
@@ -93,11 +95,13 @@ func (t *websocketTransport) Receive(ctx context.Context) (envelope, error) {
 		return nil, err
 	}
 
+	// Use a local reference, since the transport can be closed while receiving
+	conn := t.conn
 	rawChan := make(chan rawEnvelope)
 	errChan := make(chan error)
 	go func() {
 		var raw rawEnvelope
-		if err := t.conn.ReadJSON(&raw); err != nil {
+		if err := conn.ReadJSON(&raw); err != nil {
 			errChan <- err
 		} else {
 			rawChan <- raw
@@ -108,7 +112,7 @@ func (t *websocketTransport) Receive(ctx context.Context) (envelope, error) {
 	case <-ctx.Done():
 		// Effectively fails all pending read operations before returning.
 		// Note that this makes the decoder to be in a permanent error state.
-		_ = t.conn.SetReadDeadline(time.Now())
+		_ = conn.SetReadDeadline(time.Now())
 		// wait for the error of the envelope result (which will be discarded)
 		select {
 		case <-errChan:
